@@ -8,6 +8,7 @@ by padding, then for every loop mode the exported PCM is `enc` of exactly the ad
 -/
 import Smpl.Model.Roland
 import Smpl.Props.C07
+import Smpl.Lemmas.ShortRead
 
 namespace Smpl.Props.C02
 open Smpl Smpl.Roland
@@ -49,20 +50,20 @@ theorem enc_take (ws : List Nat) (k : Nat) : (enc ws).take (2 * k) = enc (ws.tak
 
 theorem reverseWords_snoc (x : Bytes) (a b : Nat) (h : x.length % 2 = 0) :
     reverseWords (x ++ [a, b]) = a :: b :: reverseWords x := by
-  induction x using reverseWords.induct with
+  induction x using Smpl.ShortRead.reverseWords.induct with
   | case1 p q rest ih =>
     have : rest.length % 2 = 0 := by simp at h; omega
-    simp [reverseWords, ih this]
+    simp [Smpl.ShortRead.reverseWords, ih this]
   | case2 t ht =>
     match t, ht with
-    | [], _ => simp [reverseWords]
+    | [], _ => simp [Smpl.ShortRead.reverseWords]
     | [_], _ => simp at h
     | p :: q :: r, ht => exact absurd rfl (ht p q r)
 
 theorem reverseWords_enc (ws : List Nat) : reverseWords (enc ws) = enc ws.reverse := by
   induction ws with
   | nil => rfl
-  | cons w ws ih => simp [enc, reverseWords, ih, enc_append]
+  | cons w ws ih => simp [enc, Smpl.ShortRead.reverseWords, ih, enc_append]
 
 /-- reversal is word-wise: the k-th word of the output is the k-th word from the end. -/
 theorem C02_reverse_words (ws : List Nat) : words16 (reverseWords (enc ws)) = words16 (enc ws.reverse) := by
@@ -167,16 +168,53 @@ theorem C02_cluster_read (b : Bytes) (c : Nat) (hin : DATA_FAT_OFF + (c + 1) * C
     omega
   simp [h3]
 
-/-- **C02 (end to end on the model).** A sample whose chain clusters hold the written words plus
-padding exports exactly the window its loop mode addresses. -/
+/-- when every cluster of the chain is wholly in the file, the block-wise reads of the model are
+the plain window of the chain content. -/
+theorem sampleData_full (img : Img) (s : SampleNode)
+    (hfull : ∀ c ∈ s.clusters, (clusterData img c).length = CLUSTER)
+    (start n : Nat) (rev : Bool)
+    (hwin : sampleWindow s.rec_.loopMode s.rec_.points = ((start : Int), (n : Int), rev)) :
+    sampleData img s = windowOf (chainContent img s.clusters) (start : Int) (n : Int) rev := by
+  have hh : chainHoley img s.clusters = ⟨chainContent img s.clusters, []⟩ := by
+    unfold chainHoley chainContent
+    rw [Smpl.ShortRead.ofPieces_full CLUSTER _ (by
+      intro p hp
+      rw [List.mem_map] at hp
+      obtain ⟨c, hc, rfl⟩ := hp
+      exact hfull c hc)]
+    simp [List.flatMap]
+  unfold sampleData windowOf
+  rw [hwin]
+  simp only [hh]
+  by_cases hn : (n : Int) ≤ 0
+  · have : n = 0 := by omega
+    simp [this]
+  · simp only [hn, if_false, Int.toNat_natCast]
+    have hc : (Smpl.ShortRead.Holey.mk (chainContent img s.clusters) []).complete = true := by
+      simp [Smpl.ShortRead.Holey.complete]
+    cases rev with
+    | false => simp [Smpl.ShortRead.readForward_complete _ hc]
+    | true =>
+      simp only [if_true, Smpl.ShortRead.readReversed_complete _ hc]
+      have hn' : 0 < n := by omega
+      by_cases hfit : 2 * (start + n) ≤ (chainContent img s.clusters).length
+      · have : ((chainContent img s.clusters).drop (2 * start) |>.take (2 * n)).length = 2 * n := by
+          simp; omega
+        simp [hfit, this]
+      · have : ¬ ((chainContent img s.clusters).drop (2 * start) |>.take (2 * n)).length = 2 * n := by
+          simp; omega
+        simp only [hfit, if_false, this]
+
+/-- **C02 (end to end on the model).** A sample whose chain clusters are all in the file and hold
+the written words plus padding exports exactly the window its loop mode addresses. -/
 theorem C02_sample (img : Img) (s : SampleNode) (ws : List Nat) (pad : Bytes)
+    (hfull : ∀ c ∈ s.clusters, (clusterData img c).length = CLUSTER)
     (hcontent : chainContent img s.clusters = enc ws ++ pad)
     (start n : Nat) (rev : Bool)
     (hwin : sampleWindow s.rec_.loopMode s.rec_.points = ((start : Int), (n : Int), rev))
     (hn : 0 < n) (hfit : start + n ≤ ws.length) :
     sampleData img s = some (enc (wordWindow ws start n rev)) := by
-  unfold sampleData
-  rw [hwin, hcontent]
+  rw [sampleData_full img s hfull start n rev hwin, hcontent]
   exact C02_window ws pad start n rev hn hfit
 
 /-- **C02 (the chain is the FAT's).** `fileClusters` returns the link-following path from the
